@@ -138,4 +138,16 @@ def programs(tier):
     add("placeholder-field", "read-on-generic-struct", ph + MAINH + "    let g = G { v: 1 };\n    let u = g.completion_placeholder;\n" + MAINT, [], expect="reject")
     add("placeholder-field", "read-in-closure", ph + MAINH + "    let f = |p: P| p.completion_placeholder;\n    let _ = f(P { x: 2 });\n" + MAINT, [], expect="reject")
     add("placeholder-field", "declared-field-of-that-name:control", "struct Q { completion_placeholder: int32 }\n" + MAINH + "    let q = Q { completion_placeholder: 4 };\n    let _ = string_println(int32_to_string(q.completion_placeholder));\n" + MAINT, ["4"])
+    # ---- type annotations INSIDE function bodies (closure parameters, lets) name types that must exist, with the right number of
+    # arguments - as in signatures (they were converted without being validated: an unknown name reached the Go text as a type)
+    hd = "struct Box[T] { v: T }\ntrait Show { fn show(Self) -> string; }\n"
+    bad_ann = {"closure-parameter:unknown-type": "let f = |x: Nope| 1;", "closure-parameter:too-many-type-arguments": "let f = |b: Box[int32, string]| 1;",
+               "closure-parameter:too-few-type-arguments": "let f = |b: Box| 1;", "closure-parameter:unknown-type-nested": "let f = |b: Vec[(int32, Nope)]| 1;",
+               "closure-parameter:unknown-trait-in-dyn": "let f = |d: dyn Nope| 1;", "let:unknown-type-under-vec": "let v: Vec[Nope] = vec_new();",
+               "let:unknown-type-under-ref-of-closure-result": "let f = |x: int32| x; let r: Ref[Nope] = ref(f(1));", "let:too-many-type-arguments": "let b: Box[int32, string] = Box { v: 1 };",
+               "checked-closure-parameter:unknown-type": "let f: (Nope) -> int32 = |x: Nope| 1;"}
+    for n, stmt in bad_ann.items():
+        add("annotation-in-body", n, hd + MAINH + "    " + stmt + "\n" + MAINT, [], expect="reject")
+    add("annotation-in-body", "known-types:control", hd + MAINH + "    let f = |b: Box[int32], v: Vec[(int32, string)]| b.v + vec_len(v);\n    let w: Vec[(int32, string)] = vec_new();\n"
+        "    let _ = string_println(int32_to_string(f(Box { v: 4 }, w)));\n" + MAINT, ["4"])
     return out
